@@ -1,14 +1,17 @@
 import CatiiProofs.IIndexShift
 import CatiiProofs.IIndexWf
 import CatiiProofs.FromArray
+import CatiiProofs.Append
 /-!
 # C06 — index operations track NumPy on the dense array over any history
 
 `denseAt i row hi` is the dense array an index stands for.  One refinement theorem per
 operation says what the operation does to that array.  **Partial**: the operations proved so
 far are `copy`, `shift_common()` / `shift_common(v)` (identity on the dense array, for any value
-— frequent, rare or absent) and construction from arrays (C01); `history_partial` lifts them to
-arbitrary finite sequences.  The remaining operations of the property (append, update,
+— frequent, rare or absent), `append(other)` (concatenation, for any pair of common values and any
+row counts incl. 0, while the combined rows fit 32 bits) and construction from arrays (C01);
+`history_partial` lifts them to arbitrary finite sequences against a NumPy-side specification
+(`specRun`).  The remaining operations of the property (update,
 filtered, sliced, slices1d, reindexed, collapsed, column_stack, the entry-wise set updates, the
 forced queries) are modelled in `CatiiModel/IIndex.lean` statement by statement and are tied to
 the real code by the correspondence harness after **every** step of every generated history,
@@ -19,55 +22,118 @@ namespace Catii.C06
 open Catii.IIdx
 
 /-- operations covered by theorems so far -/
-inductive Op | copy | shift (v : Option Int)
+inductive Op | copy | shift (v : Option Int) | append (other : IIndex)
 
 def apply (i : IIndex) : Op → M IIndex
   | .copy => pure (IIdx.copy i)
   | .shift v => shiftCommon i v
+  | .append o => IIdx.append i o
 
 def run : IIndex → List Op → M IIndex
   | i, [] => pure i
   | i, op :: ops => do run (← apply i op) ops
 
-/-- `copy()` and `shift_common(...)` change nothing: NumPy's counterpart is the identity -/
-theorem step_refines (i : IIndex) (h : WF i) (hnd : i.ndim ≤ 2) (op : Op) (r : IIndex)
-    (hr : apply i op = .ok r) :
-    WF r ∧ r.shape = i.shape ∧
-      ∀ row < i.nrows, ∀ hi ∈ hiCells (i.shape.drop 1), denseAt r row hi = denseAt i row hi := by
+/-- the NumPy side: a dense array is its row count and its cells; `copy` and `shift_common` are the
+identity, `append` is `numpy.concatenate` along the rows -/
+abbrev Dense := Nat × (Nat → List Int → Int)
+
+def specStep (d : Dense) : Op → Dense
+  | .copy => d
+  | .shift _ => d
+  | .append o => (d.1 + o.nrows, fun r hi => if r < d.1 then d.2 r hi else denseAt o (r - d.1) hi)
+
+def specRun (d : Dense) (ops : List Op) : Dense := ops.foldl specStep d
+
+/-- the property's quantifier for the operands of `append`: well-formed, same higher shape, and the
+combined row count fits the 32-bit row-id word -/
+def OpsOK (hiShape : List Nat) : Nat → List Op → Prop
+  | _, [] => True
+  | n, .append o :: ops => WF o ∧ o.shape.drop 1 = hiShape ∧ n + o.nrows ≤ 2^32 ∧ OpsOK hiShape (n + o.nrows) ops
+  | n, _ :: ops => OpsOK hiShape n ops
+
+/-- an index *represents* a dense array -/
+def Represents (i : IIndex) (hiShape : List Nat) (d : Dense) : Prop :=
+  WF i ∧ i.shape = d.1 :: hiShape ∧ ∀ row < d.1, ∀ hi ∈ hiCells hiShape, denseAt i row hi = d.2 row hi
+
+/-- one step: the index operation and its NumPy counterpart stay in step -/
+theorem step_refines (i : IIndex) (hiShape : List Nat) (d : Dense) (h : Represents i hiShape d)
+    (hnd : hiShape.length ≤ 1) (op : Op) (hok : OpsOK hiShape d.1 [op]) (r : IIndex)
+    (hr : apply i op = .ok r) : Represents r hiShape (specStep d op) := by
+  obtain ⟨hw, hs, hd⟩ := h
+  have hnd' : i.ndim ≤ 2 := by simp only [IIndex.ndim, hs, List.length_cons]; omega
+  have hn : i.nrows = d.1 := by simp [IIndex.nrows, hs]
+  have hdrop : i.shape.drop 1 = hiShape := by simp [hs]
   cases op with
   | copy =>
     simp only [apply, IIdx.copy, pure, Except.pure] at hr
     cases hr
-    exact ⟨h, rfl, fun _ _ _ _ => rfl⟩
-  | shift v => exact shiftCommon_refines i h hnd v r hr
+    exact ⟨hw, hs, hd⟩
+  | shift v =>
+    obtain ⟨hw', hs', hd'⟩ := shiftCommon_refines i hw hnd' v r hr
+    refine ⟨hw', hs'.trans hs, fun row hrow hi hhi => ?_⟩
+    rw [hd' row (by rw [hn]; exact hrow) hi (by rw [hdrop]; exact hhi)]
+    exact hd row hrow hi hhi
+  | append o =>
+    obtain ⟨hwo, hso, hfit, _⟩ := hok
+    have ok : AppendOK i o := ⟨hw, hwo, by rw [hso, hdrop], by rw [hn]; exact hfit⟩
+    obtain ⟨hw', hs', hold, hnew⟩ := append_refines ok hnd' r hr
+    refine ⟨hw', by rw [hs', hn, hdrop]; rfl, fun row hrow hi hhi => ?_⟩
+    simp only [specStep] at hrow ⊢
+    by_cases hlt : row < d.1
+    · simp only [hlt, if_true]
+      rw [hold row (by rw [hn]; exact hlt) hi (by rw [hdrop]; exact hhi)]
+      exact hd row hlt hi hhi
+    · simp only [hlt, if_false]
+      have := hnew (row - d.1) (by omega) hi (by rw [hdrop]; exact hhi)
+      rw [hn] at this
+      rw [← this]
+      congr 1
+      omega
 
-/-- any finite history of the covered operations leaves the dense array (and well-formedness) intact -/
-theorem history_partial (i : IIndex) (h : WF i) (hnd : i.ndim ≤ 2) (ops : List Op) (r : IIndex)
-    (hr : run i ops = .ok r) :
-    WF r ∧ r.shape = i.shape ∧
-      ∀ row < i.nrows, ∀ hi ∈ hiCells (i.shape.drop 1), denseAt r row hi = denseAt i row hi := by
-  induction ops generalizing i with
+/-- **any finite history** of the covered operations: the index reached represents the array NumPy reaches -/
+theorem history_partial (i : IIndex) (hiShape : List Nat) (d : Dense) (h : Represents i hiShape d)
+    (hnd : hiShape.length ≤ 1) (ops : List Op) (hok : OpsOK hiShape d.1 ops) (r : IIndex)
+    (hr : run i ops = .ok r) : Represents r hiShape (specRun d ops) := by
+  induction ops generalizing i d with
   | nil =>
     simp only [run, pure, Except.pure] at hr
     cases hr
-    exact ⟨h, rfl, fun _ _ _ _ => rfl⟩
+    exact h
   | cons op ops ih =>
     simp only [run, bind, Except.bind] at hr
     cases hs : apply i op with
     | error e => rw [hs] at hr; cases hr
     | ok j =>
       rw [hs] at hr
-      obtain ⟨hwj, hsj, hdj⟩ := step_refines i h hnd op j hs
-      have hndj : j.ndim ≤ 2 := by unfold IIndex.ndim at *; rw [hsj]; exact hnd
-      obtain ⟨hwr, hsr, hdr⟩ := ih j hwj hndj hr
-      have hnr : j.nrows = i.nrows := by unfold IIndex.nrows; rw [hsj]
-      refine ⟨hwr, hsr.trans hsj, fun row hrow hi hhi => ?_⟩
-      rw [hdr row (by rw [hnr]; exact hrow) hi (by rw [hsj]; exact hhi)]
-      exact hdj row hrow hi hhi
+      have hok1 : OpsOK hiShape d.1 [op] := by
+        cases op with
+        | copy => trivial
+        | shift v => trivial
+        | append o => exact ⟨hok.1, hok.2.1, hok.2.2.1, trivial⟩
+      have hj := step_refines i hiShape d h hnd op hok1 j hs
+      have hok2 : OpsOK hiShape (specStep d op).1 ops := by
+        cases op with
+        | copy => exact hok
+        | shift v => exact hok
+        | append o => exact hok.2.2.2
+      exact ih j (specStep d op) hj hok2 hr
+
+/-- every well-formed index represents its own dense array -/
+theorem represents_self (i : IIndex) (h : WF i) :
+    Represents i (i.shape.drop 1) (i.nrows, fun r hi => denseAt i r hi) := by
+  refine ⟨h, ?_, fun _ _ _ _ => rfl⟩
+  have := h.ndimPos
+  unfold IIndex.ndim IIndex.nrows at *
+  cases hsh : i.shape with
+  | nil => rw [hsh] at this; simp at this
+  | cons a as => simp
 
 /-! Non-vacuity -/
 example : WF ⟨[([1], [0, 2]), ([2], [1])], 0, [4]⟩ := wf_sound _ (by decide)
-example : (run ⟨[([1], [0, 2]), ([2], [1])], 0, [4]⟩ [.shift (some 1), .copy, .shift none]).isOk = true := by
+example : (run ⟨[([1], [0, 2]), ([2], [1])], 0, [4]⟩
+    [.shift (some 1), .copy, .append ⟨[([0], [1])], 2, [3]⟩, .shift none]).isOk = true := by
   decide +kernel
+example : OpsOK [] 4 [.shift (some 1), .copy, .append ⟨[([0], [1])], 2, [3]⟩, .shift none] :=
+  ⟨wf_sound _ (by decide), rfl, by decide, trivial⟩
 
 end Catii.C06
